@@ -19,11 +19,14 @@ func propC14() Property {
 	return Property{
 		ID: "C14",
 		Explanation: "Codec table agreement for the two value types whose reader and writer are driven by tables. R1 (timestamps): for every precision P the layout Read parses when it tags the value P is the layout Write emits for P; the length Read switches on equals len(layout); Write's fall-through layout is the one Read tags with the zero precision (Millis); all four precisions are covered on both sides. " +
-			"R2 (booleans): the literals Read accepts are exactly the literals Write produces, with the same polarity (\"Y\" ↔ true, \"N\" ↔ false), anything else is an error.",
-		NotDecided: "that exactly the FIX grammar is accepted for int/float/decimal (properties of all strings), value round trips, truncation to the written precision.",
+			"R2 (booleans): the literals Read accepts are exactly the literals Write produces, with the same polarity (\"Y\" ↔ true, \"N\" ↔ false), anything else is an error. R3 (integer scanner, found by shape: a function folding acc*10+digit over the bytes of a parameter): a byte reaches the accumulation only under guards confining it to '0'..'9'; the accumulator is compared against a limit before it is multiplied (otherwise a long digit string wraps to a different, accepted number); no success return is possible for an empty text — either the scanner tests len itself or every call site passes a text its guards show non-empty (this is what makes a lone '-' an error); the only prefix a caller strips is one byte at position 0 shown equal to '-'. R4 (float): the reader's byte whitelist, read off the rejecting return's guard, is exactly digits (through a predicate shown to be true exactly on '0'..'9'), '.' and '-'; the receiver is assigned only after ParseFloat succeeded and no rejection can follow the assignment. R5: every time-typed Write formats t.UTC() (the layouts carry no zone), so the written text denotes the same instant whatever the value's location.",
+		NotDecided: "the grammar accepted by strconv.ParseFloat and time.Parse inside the whitelisted alphabet (e.g. two dots, a '-' in the middle: library behaviour), decimals, value round trips as equalities, truncation to the written precision.",
 		Rules: []RuleDef{
 			{ID: "C14-R1", Desc: "timestamp layout/length/precision tables agree between Read and Write", Min: 5, Run: c14R1},
 			{ID: "C14-R2", Desc: "boolean literals agree between Read and Write", Min: 3, Run: c14R2},
+			{ID: "C14-R3", Desc: "integer scanner: digits only, non-empty, sign only in front, accumulation guarded", Min: 4, Run: c14R3},
+			{ID: "C14-R4", Desc: "float whitelist: digits, '.', '-' only, before the value is stored", Min: 3, Run: c14R4},
+			{ID: "C14-R5", Desc: "timestamp writers format the UTC wall clock", Min: 4, Run: c14R5},
 		},
 	}
 }
